@@ -120,19 +120,22 @@ VARIABLES phase,   \* "idle" -> "graph" -> "search" -> "filter" -> "done"
           q,       \* the query: src, dst, ups, cores, downs (sequences), all (findAllIdentical)
           edges,   \* the DMG: set of [from, to, pc, w]
           sols,    \* sequence of solutions (each a sequence of edges), sorted
-          result   \* sequence of [ch, q]: what Combine returns
-vars == <<phase, q, edges, sols, result>>
+          result,  \* sequence of [ch, q]: what Combine returns
+          defs     \* history variable: [choice -> path] BY DEFINITION for the query (evaluated once)
+vars == <<phase, q, edges, sols, result, defs>>
 
 NoQ == [src |-> "", dst |-> "", ups |-> <<>>, cores |-> <<>>, downs |-> <<>>, all |-> FALSE]
-Init == phase = "idle" /\ q = NoQ /\ edges = {} /\ sols = <<>> /\ result = <<>>
+Init == phase = "idle" /\ q = NoQ /\ edges = {} /\ sols = <<>> /\ result = <<>> /\ defs = <<>>
 
 Query == /\ phase = "idle"
-         /\ \E src \in ASes : \E dst \in ASes \ {src} : \E all \in BOOLEAN :
+         /\ \E src \in ASes : \E dst \in ASes \ {src} :
             \E U \in Small({s \in AllDown : LastIA(s) = src}) :
             \E D \in Small({s \in AllDown : LastIA(s) = dst}) :
             \E C \in Small(AllCore) :
-              q' = [src |-> src, dst |-> dst, ups |-> SetToSeq(U), cores |-> SetToSeq(C),
-                    downs |-> SetToSeq(D), all |-> all]
+              /\ q' = [src |-> src, dst |-> dst, ups |-> SetToSeq(U), cores |-> SetToSeq(C),
+                       downs |-> SetToSeq(D), all |-> FALSE]
+              /\ defs' = [ch \in PathChoices(q'.src, q'.dst, q'.ups, q'.cores, q'.downs) |->
+                             PathOf(ch, q'.ups, q'.cores, q'.downs)]
          /\ phase' = "graph" /\ UNCHANGED <<edges, sols, result>>
 
 (* newDMG / traverseSegment *)
@@ -158,7 +161,7 @@ NewDMG == /\ phase = "graph"
           /\ edges' = UNION ({SegEdges("up", q.ups, i) : i \in DOMAIN q.ups}
                         \cup {SegEdges("core", q.cores, i) : i \in DOMAIN q.cores}
                         \cup {SegEdges("down", q.downs, i) : i \in DOMAIN q.downs})
-          /\ phase' = "search" /\ UNCHANGED <<q, sols, result>>
+          /\ phase' = "search" /\ UNCHANGED <<q, sols, result, defs>>
 
 (* GetPaths *)
 ValidNext(cur, nxt) == CASE cur = "up" -> nxt \in {"core", "down"} [] cur = "core" -> nxt = "down" [] OTHER -> FALSE
@@ -173,28 +176,30 @@ GetPaths == /\ phase = "search"
                    S3 == ExtOK(S2, T)
                    found == {s \in S1 \cup S2 \cup S3 : Last(s).to = T}
                IN sols' = SortSeq(SetToSeq(found), LAMBDA x, y : Cost(x) < Cost(y))
-            /\ phase' = "filter" /\ UNCHANGED <<q, edges, result>>
+            /\ phase' = "filter" /\ UNCHANGED <<q, edges, result, defs>>
 
 (* Path() for every solution, filterLongPaths, filterDuplicates *)
 ChoiceOf(s) == [j \in 1..Len(s) |-> s[j].pc]
 Filter == /\ phase = "filter"
-          /\ LET paths == [j \in 1..Len(sols) |-> [ch |-> ChoiceOf(sols[j]), w |-> Cost(sols[j]),
+          /\ \E all \in BOOLEAN :       \* findAllIdentical only matters here
+             LET paths == [j \in 1..Len(sols) |-> [ch |-> ChoiceOf(sols[j]), w |-> Cost(sols[j]),
                                                     q |-> PathOf(ChoiceOf(sols[j]), q.ups, q.cores, q.downs)]]
                  short == SelectSeq(paths, LAMBDA x : ~Loopy(x.q.intfs))
                  \* index kept for a fingerprint: the first one with the latest expiry
                  keep(j) == \A i \in 1..Len(short) : short[i].q.intfs = short[j].q.intfs =>
                                (short[i].q.exp < short[j].q.exp \/ (short[i].q.exp = short[j].q.exp /\ i >= j))
-                 idx == {j \in 1..Len(short) : q.all \/ keep(j)}
-             IN result' = [j \in 1..Cardinality(idx) |-> short[CHOOSE i \in idx : Cardinality({x \in idx : x < i}) = j - 1]]
-          /\ phase' = "done" /\ UNCHANGED <<q, edges, sols>>
+                 idx == {j \in 1..Len(short) : all \/ keep(j)}
+             IN /\ result' = [j \in 1..Cardinality(idx) |-> short[CHOOSE i \in idx : Cardinality({x \in idx : x < i}) = j - 1]]
+                /\ q' = [q EXCEPT !.all = all]
+          /\ phase' = "done" /\ UNCHANGED <<edges, sols, defs>>
 
 Next == Query \/ NewDMG \/ GetPaths \/ Filter
 Spec == Init /\ [][Next]_vars
 
 -----------------------------------------------------------------------------
 (* Properties. *)
-Def == PathChoices(q.src, q.dst, q.ups, q.cores, q.downs)
-DefPath(ch) == PathOf(ch, q.ups, q.cores, q.downs)
+Def == DOMAIN defs
+DefPath(ch) == defs[ch]
 GoodDef == {ch \in Def : ~Loopy(DefPath(ch).intfs)}
 
 \* C29 (design): the graph enumeration finds exactly the combinations of the definition
